@@ -45,8 +45,56 @@ class FeedServer:
             self.conn.close()
             self.conn = None
 
+    def stall(self):
+        """make the port unresponsive without refusing: the accept queue is filled with dummy
+        connections, so further SYNs are silently dropped and a connect attempt times out"""
+        self._dummies = []
+        for _ in range(24):
+            d = socket.socket(socket.AF_INET, socket.SOCK_STREAM)
+            d.setblocking(False)
+            try:
+                d.connect_ex(("127.0.0.1", self.port))
+            except OSError:
+                pass
+            self._dummies.append(d)
+        time.sleep(0.2)
+
+    def unstall(self):
+        """drop the dummy connections again (pending ones are taken off the queue and closed)"""
+        mine = set()
+        for d in getattr(self, "_dummies", []):
+            try:
+                mine.add(d.getsockname()[1])
+            except OSError:
+                pass
+        self._dummy_ports = mine
+        for d in getattr(self, "_dummies", []):
+            try:
+                d.close()
+            except OSError:
+                pass
+        self._dummies = []
+
+    def accept_real(self, timeout=30.0):
+        """accept, skipping what is left of the dummy connections"""
+        end = time.time() + timeout
+        while time.time() < end:
+            self.sock.settimeout(max(0.1, end - time.time()))
+            try:
+                c, peer = self.sock.accept()
+            except socket.timeout:
+                return False
+            if peer[1] in getattr(self, "_dummy_ports", set()):
+                c.close()
+                continue
+            self.conn = c
+            self.conn.setsockopt(socket.IPPROTO_TCP, socket.TCP_NODELAY, 1)
+            return True
+        return False
+
     def close(self):
         self.drop()
+        self.unstall()
         self.sock.close()
 
 
